@@ -720,6 +720,9 @@ static void getConfigs(const simplecpp::TokenList &tokens, std::set<std::string>
                     }
                     configs_if.push_back(configs_ifndef.back());
                     ret.insert(cfg(configs_if, userDefines));
+                } else {
+                    // keep one entry per open conditional so that the matching #endif pops this level only
+                    configs_if.emplace_back();
                 }
             }
         } else if (cmdtok->str() == "endif" && !sameline(tok, cmdtok->next)) {
